@@ -1626,7 +1626,70 @@ def run_plan(plan: dict) -> dict:
     return info
 
 
+LEAVES = [("soil", "conductivity"), ("soil", "rho_cp"), ("soil", "undisturbed_temp"), ("grout", "conductivity"), ("grout", "rho_cp"),
+          ("fluid", "temperature"), ("fluid", "concentration_percent"), ("borehole", "buried_depth"), ("borehole", "diameter"),
+          ("pipe", "shank_spacing"), ("pipe", "conductivity"), ("pipe", "rho_cp"), ("pipe", "roughness"),
+          ("simulation", "num_months"), ("simulation", "max_eft"), ("simulation", "min_eft"), ("design", "flow_rate"),
+          ("loads", "amp"), ("loads", "phase")]
+
+
+def leaf_sweep_plans(seed: int, prop: str) -> list:
+    """Fault-enumeration-like part of C13: for one seeded base configuration, *every* single input number in turn is
+    changed (up and down) on a near-identical design that runs first in the process; the base design is then compared with
+    a pristine interpreter.  A process-wide cache whose key forgets that one field serves the base design stale data."""
+    plans = []
+    for which in ("deep", "shallow"):
+        plans += _leaf_sweep_for(seed, prop, which)
+    return plans
+
+
+def _leaf_sweep_for(seed: int, prop: str, which: str) -> list:
+    rng = derive_rng(seed, "E1", prop, f"leaf-sweep-{which}")
+    cfg = gen.draw_cfg(rng, methods=["NEARSQUARE", "RECTANGLE"], pipes=["SINGLEUTUBE", "DOUBLEUTUBEPARALLEL", "COAXIAL"],
+                       target="bracket", months=rng.choice([12, 24]))
+    cfg["simulation"]["max_boreholes"] = None
+    if cfg["fluid"]["fluid_name"] == "WATER":
+        cfg["fluid"] = {"fluid_name": "PROPYLENEGLYCOL", "concentration_percent": 20.0, "temperature": 20.0}
+    if which == "shallow":
+        # below ~70 m the short-time-step model runs for its minimum duration whatever the soil
+        cfg["simulation"]["min_height"] = gen.r3(rng.uniform(25.0, 40.0))
+        cfg["simulation"]["max_height"] = gen.r3(cfg["simulation"]["min_height"] + rng.uniform(15.0, 28.0))
+        cfg["borehole"]["height"] = cfg["simulation"]["max_height"]
+        cfg["loads"]["amp"] = gen.amp_for(cfg, rng.uniform(3.0, 9.0), cfg["simulation"]["max_height"])
+    cfg2 = gen.draw_cfg(rng, methods=CHEAP_METHODS, months=12)
+    plans = []
+    for sec, key in LEAVES:
+        if key not in cfg[sec]:
+            continue
+        for factor in (1.3, 0.75):
+            v = copy.deepcopy(cfg)
+            v.pop("target", None)
+            old = cfg[sec][key]
+            if key == "num_months":
+                new = 36 if factor > 1 else (12 if old != 12 else 24)
+            elif key in ("undisturbed_temp", "max_eft", "min_eft", "temperature", "phase"):
+                new = gen.r3(old + (2.0 if factor > 1 else -2.0))
+            elif key == "diameter":
+                new = gen.r3(old * (1.08 if factor > 1 else 1.0))
+            elif key == "shank_spacing":
+                new = gen.r3(old * (1.1 if factor > 1 else 0.9))
+            else:
+                new = gen.r3(old * factor)
+            if new == old:
+                continue
+            v[sec][key] = new
+            v["variant_of"] = [f"{sec}.{key}"]
+            ops = [{"op": "other", "cfg_key": "variant"}, {"op": "build", "mgr": "A", "order": list(gen.SETTERS), "decoys": [],
+                                                            "cfg_key": "base"}, {"op": "find", "mgr": "A"}, {"op": "pristine", "mgr": "A"}]
+            plans.append({"engine": "E1", "property": prop, "cfg": cfg, "cfg2": cfg2, "variant": v, "variant2": v, "ops": ops,
+                          "clock": {"start": 0.0, "step": 1.0}, "leaf": f"{which}:{sec}.{key}x{factor}"})
+    return plans
+
+
 def make_plans(jobspec: dict) -> list:
+    if jobspec.get("leaf_sweep"):
+        allp = leaf_sweep_plans(jobspec["seed"], jobspec["prop"])
+        return allp[jobspec["start"]: jobspec["start"] + jobspec["count"]]
     out = []
     for i in range(jobspec["start"], jobspec["start"] + jobspec["count"]):
         rng = derive_rng(jobspec["seed"], "E1", jobspec["prop"], i)
@@ -1644,6 +1707,9 @@ def run_many(jobspec: dict) -> dict:
         if r["status"] == "violation":
             r["plan"] = plan
             r["jobspec"] = jobspec
+        if plan.get("leaf"):
+            r.setdefault("count", {})["leaf_sweep_plans"] = 1
+            r.setdefault("sets", {})["leaves_swept"] = [plan["leaf"]]
         if i % 5:
             r.pop("sample", None)
         outs.append(r)
